@@ -38,6 +38,8 @@ type twoChain struct {
 	chal       henv.User
 	period     time.Duration
 	log        []string
+	// resendProposals: every accepted output proposal is delivered a second time
+	resendProposals bool
 }
 
 // pendingDeposit is what the executor reads from one L1 deposit event.
@@ -215,9 +217,16 @@ func (tc *twoChain) proposeDeepTree(ts []wd, l2Block uint64, extraLevels int) (*
 		o = buildDeepOutput(ts, pad, extra, 0, ref32(byte(l2Block)))
 	}
 	next, _ := tc.l1.K.GetNextOutputIndex(tc.l1.Ctx, tc.bridgeID)
-	r := tc.l1.Deliver(ophosttypes.NewMsgProposeOutput(tc.proposer.Str, tc.bridgeID, next, l2Block, o.Root[:]))
+	msg := ophosttypes.NewMsgProposeOutput(tc.proposer.Str, tc.bridgeID, next, l2Block, o.Root[:])
+	r := tc.l1.Deliver(msg)
 	if r.OK() {
 		o.Index, o.L2Block, o.At = next, l2Block, tc.l1.Ctx.BlockTime()
+		if tc.resendProposals {
+			// the proposer's transaction is broadcast a second time (a timeout on its side): whatever L1 answers,
+			// the log of outputs goes on gap-free
+			rr := tc.l1.Deliver(ophosttypes.NewMsgProposeOutput(tc.proposer.Str, tc.bridgeID, next, l2Block, o.Root[:]))
+			tc.logf("proposal %d sent a second time -> %v", next, rr.Err)
+		}
 	}
 	return o, r
 }
@@ -246,7 +255,7 @@ func (tc *twoChain) restartL2() {
 	n.BK.InitGenesis(n.Ctx, old.BK.ExportGenesis(old.Ctx))
 	var gs opchildtypes.GenesisState
 	n.Enc.Marshaler.MustUnmarshalJSON(old.Enc.Marshaler.MustMarshalJSON(old.K.ExportGenesis(old.Ctx)), &gs)
-	n.K.InitGenesis(n.Ctx, &gs)
+	n.K.InitGenesis(n.Ctx.WithBlockHeight(0), &gs) // InitChain runs at height 0
 	tc.l2 = n
 	tc.logf("L2 genesis export -> import")
 }
